@@ -145,7 +145,9 @@ def gen_ann(r, n):
                 ea = a + r.randrange(0, 40)
                 at = [("ID", ["%s%d" % (ft[0].lower(), ei)]), ("Parent", par)]
                 if r.random() < 0.3:
-                    at.append(("Note", [r.choice(["n", "with space", "50%", "t\tab"])]))
+                    # ... also characters that str.splitlines() takes for line boundaries although no file reader does
+                    at.append(("Note", [r.choice(["n", "with space", "50%", "t\tab", "a\u2028b", "p\x0cq", "u\x85v",
+                                                  "l\x1cm\x0bn", "k\u2029"])]))
                 recs.append((cols(ft, ea, min(b, ea + r.randrange(0, 60)), strand, "0" if ft == "CDS" else "."), at))
         if r.random() < 0.3:
             r.shuffle(recs)
@@ -166,13 +168,13 @@ def gen_ann(r, n):
                 if r.random() < 0.5:
                     at.append(("exon_number", [str(k + 1)]))
                 if r.random() < 0.2:
-                    at.append(("note", [r.choice(["x y", "p=q", "semi colon"])]))
+                    at.append(("note", [r.choice(["x y", "p=q", "semi colon", "a\u2028b", "p\x0cq", "l\x1dm"])]))
                 recs.append((cols(ft, a, b, strand, "0" if ft == "CDS" else "."), at))
     header = r.choice([[], ["##gff-version 3"], ["##gff-version 3", "#comment"], ["#!x", ""]])
     noise = {}
     for i in range(len(recs) + 1):
         if r.random() < 0.15:
-            noise[i] = [r.choice(["#c", "", "##mid-directive"])]
+            noise[i] = [r.choice(["#c", "", "##mid-directive", "#c\x0cd", "##mid\u2028directive two", "#c\x85 e"])]
     return Ann(fmt, sep, trailing, recs[:n], header, noise)
 
 
@@ -851,6 +853,44 @@ def check_annotation(ctx, res, ann, tag, r, cmds, exp_out, tags, heavy, crlf=Fal
                                  repr((env.lines, asked, limit))))
 
 
+def mixed_window_order(ctx, res):
+    """one-shot Feature sources whose items carry DIFFERENT, individually inferred dialects (some lines end in a
+    semicolon, some use another separator) so that the dialect vote inside the inspection window can be an exact tie:
+    whatever the vote, the items come out once each and in their original order, for every checklines 0..n+2"""
+    from gffutils import iterators
+    from gffutils.feature import feature_from_line
+    r = ctx.rng("c13-mixed-window")
+    fixed = [["ID=g1", "ID=m1;Parent=g1", "ID=e1;Parent=m1;Name=first;"],
+             ["ID=a;", "ID=b;Name=x;Note=y", "ID=c", "ID=d;Name=z;"]]
+    for ci in range(10 if not ctx.thorough else 100):
+        if ci < len(fixed):
+            attrs = fixed[ci]
+        else:
+            attrs = []
+            for i in range(r.randrange(2, 7)):
+                ks = ["ID=f%d" % i] + ["%s=v%d" % (k, i) for k in r.sample(["Name", "Note", "Alias", "tag"], r.randrange(0, 4))]
+                attrs.append(r.choice([";", "; "]).join(ks) + r.choice(["", "", ";"]))
+        lines = ["chr1\tsrc\tgene\t%d\t%d\t.\t+\t.\t%s" % (10 * i + 1, 10 * i + 5, a) for i, a in enumerate(attrs)]
+        want = [a.split("=")[1].split(";")[0] for a in attrs]
+        for cl in range(0, len(lines) + 3):
+            for form in ("generator", "iter", "map"):
+                items = [feature_from_line(l) for l in lines]
+                src = CountingGen(items) if form == "generator" else iter(items) if form == "iter" else map(lambda x: x, items)
+                case = {"scenario": "mixed_window_order", "input": lines, "checklines": cl, "form": form, "no_shrink": True}
+                res.evaluations += 1
+                try:
+                    got = [f.attributes["ID"][0] for f in iterators.DataIterator(src, checklines=cl)]
+                except Exception as ex:
+                    common.fail(res, case, "iteration_raised", "DataIterator over a one-shot Feature source raised %r" % ex,
+                                error=pyside.err_name(ex))
+                    continue
+                res.count("mixed_dialect_one_shot_source")
+                if got != want:
+                    common.fail(res, case, "one_shot_items_reordered_or_lost",
+                                "looking ahead to infer the dialect dropped, duplicated or reordered the items of a one-shot "
+                                "source whose items carry different dialects", observed=got, expected=want)
+
+
 def run(ctx):
     res = common.Result("C13")
     r = ctx.rng("c13")
@@ -869,6 +909,7 @@ def run(ctx):
             continue
         check_annotation(ctx, res, ann, "a%d" % (i % 3), r, cmds, exp_out, tags, heavy=ctx.thorough, crlf=(i % 3 == 2))
     directed(ctx, res, cmds, exp_out, tags)
+    mixed_window_order(ctx, res)
     # annotations whose lines end in white space that is data, in the three text forms
     rw = ctx.rng("c13-trailing-ws")
     for i in range(8 if not ctx.thorough else 60):
@@ -932,6 +973,18 @@ def replay(ctx, payload):
         for w, fp in res.oracle_failures[:3]:
             print("replay:   now: %s (form=%s checklines=%s)" % (w, fp.get("form"), fp.get("checklines")))
         print("replay: verdict: %d oracle failures on these lines (%s)" % (len(res.oracle_failures), common.repo_dir()))
+        return res
+    if inp.get("scenario") == "mixed_window_order":
+        from gffutils import iterators
+        from gffutils.feature import feature_from_line
+        items = [feature_from_line(l) for l in inp["input"]]
+        want = [f.attributes["ID"][0] for f in items]
+        src = iter(items) if inp.get("form") != "map" else map(lambda x: x, items)
+        got = [f.attributes["ID"][0] for f in iterators.DataIterator(src, checklines=inp["checklines"])]
+        print("replay: one-shot source of %d features with different dialects, checklines=%s: yielded %r, expected %r"
+              % (len(items), inp["checklines"], got, want))
+        if got != want:
+            common.fail(res, inp, "one_shot_items_reordered_or_lost", payload.get("what", ""), observed=got, expected=want)
         return res
     if "annotation" not in inp:
         print("replay: no annotation in payload")
